@@ -1109,6 +1109,12 @@ def run_case(case: dict) -> CaseResult:
             continue  # after a send that raised nothing is known about the run
         if nxt - a <= I + TOL:
             continue  # (no release inside a short interval: clause (a))
+        if any(e["t"] < a + I - TOL and a + I + TOL < min((x["t"] for x in obs["starts"] if x["k"] > e["k"]), default=INF) for e in idle_ends):
+            # the interval starts at a send that arrived while a release was already under way: STRICTLY before a release would be due
+            # the run has left memory, and it has not been started again (the sender is still polling the lifecycle row -- for the whole
+            # crash timeout when the releaser died); nothing is in memory to release
+            r.classes.append("quiet_interval_starts_inside_a_release")
+            continue
         after_wake = any(w["t_out"] is not None and abs(w["t_out"] - a) <= TOL for w in woke)
         inside = [x for x in begins if a + TOL < x["t"] <= nxt + TOL]
         on_time = [x for x in inside if abs(x["t"] - (a + I)) <= TOL]
